@@ -772,6 +772,10 @@ PROPS = {
                 "distinct = distinct (API, bit-size class, bound shape class, inclusive?, sign classes, retries)"),
             Job("c18", "std-release", 200_000, 15_000_000, "same plans in the release harness"),
             Job("c18", "nostd-debug", 100_000, 4_000_000, "same plans against the no_std + rand build of the library"),
+            Job("c18long", ["std-release", "nostd-release"], 32, 256,
+                "one bounded draw (gen_biguint_below / ranges / Uniform back-end / sample_single) behind a stuck-at-ones fault of 2^24 .. "
+                "2^24 + 2^23 rejected candidates (64 .. 200 MiB of virtual stream), then the scripted candidates: the result must still be "
+                "the first candidate below the bound; release harness only (seconds per call in a debug build)"),
         ],
         assumptions=[
             "rng_model: gen_biguint(n) = first ceil(n/32) little-endian words of the stream, top word shifted right by 32 - n%32",
